@@ -135,7 +135,9 @@ func cmdCheck(args []string) int {
 		if !contractMentions(c, id) {
 			continue
 		}
-		sessions = append(sessions, g.Verify(c))
+		sess := g.Verify(c)
+		sessionByFunc[sess.Func] = sess
+		sessions = append(sessions, sess)
 	}
 	// cover obligations ride along with sessions that have selected obligations
 	wantAll := func(ob *Oblig) bool { return want(ob) || ob.Cover }
@@ -270,6 +272,7 @@ func contractMentions(c *Contract, id string) bool {
 	all := append(append([]*Clause{}, c.Requires...), c.Ensures...)
 	for _, l := range c.Loops {
 		all = append(all, l.Invariants...)
+		all = append(all, l.Steps...)
 	}
 	for _, cl := range all {
 		if hasTag(cl.Tags, id) {
